@@ -55,7 +55,7 @@ LOWER_GLUE = ["Module::resolve_special_instrumentation: the per-function driver 
 
 V18_TYPES = ["V18_parse_types.convert_subtype.*", "V18_parse_types.fn:Module::convert_subtype", "V18_parse_types.parse_type_section.*", "V18_parse_types.fn:Module::parse_type_section", "V18_parse_types.DataType.from_storage_type.*", "V18_parse_types.fn:DataType as From::from", "V18_parse_types.fn:RecGroup::new", "V18_parse_types.fn:lemma_*", "V18_parse_types.fn:Error as From::from"]
 V18_TRUST = "type-section arm of parse_internal (V18): wasmparser's SubType / CompositeType / FieldType / ArrayType / StructType / ContType / StorageType are taken as they are (public fields); FuncType through params() / results(); a recursion group through two uninterpreted observers (explicitness, member list) behind wrappers that stand for `ty.clone()?.is_explicit_rec_group()` and `ty?.types()`; DataType::from(ValType) is an uninterpreted dt_of (total on what the reader yields - it panics on UnpackedIndex::Id, which only the validator produces; exactness: Kani K1); derived Clone of CompositeInnerType / Types yield equal values; precondition: the type ids handed out so far are 0..n and the section fits below 2^32"
-V19_CODE = ["V19_parse_code.parse_code_entry.*", "V19_parse_code.fn:Module::parse_code_entry", "V19_parse_code.check_section_counts.*", "V19_parse_code.fn:Module::check_section_counts", "V19_parse_code.fn:lemma_*", "V19_parse_code.fn:Error as From::from"]
+V19_CODE = ["V19_parse_code.parse_code_entry.*", "V19_parse_code.fn:Module::parse_code_entry", "V19_parse_code.check_section_counts.*", "V19_parse_code.fn:Module::check_section_counts", "V19_parse_code.parse_start_section.*", "V19_parse_code.fn:Module::parse_start_section", "V19_parse_code.fn:lemma_*", "V19_parse_code.fn:Error as From::from"]
 V19_TRUST = "code-entry arm of parse_internal (V19): a function body of the reader is two sequences of items (local declarations, operators; an entry or a read error each, the sum of the declared counts fits u32 - LocalsReader::read fails with 'too many locals' otherwise); the two `collect::<Result<Vec<_>, _>>()` over the external iterators are named wrappers ASSUMED to gather all entries or hand on an error; DataType::from(ValType) as dt_of; Instruction::new gives the operator with an empty flag (derived Default); `num_locals += count` (a `&u32` operand) is read as `+= *count` (std's forwarding impl)"
 V17_SKELETON = ["V17_encode_skeleton.encode_internal.*", "V17_encode_skeleton.fn:Module::encode_internal", "V17_encode_skeleton.fn:lemma_prefix_*", "V17_encode_skeleton.fn:*::is_empty",
                 "V12_sections.encode_globals.nothing_a_section_guard_reads_changes", "V12_sections.encode_data_segments.nothing_a_section_guard_reads_changes", "V11_emit.encode_code_section.nothing_a_section_guard_reads_changes"]
@@ -140,7 +140,7 @@ PROPS = {
                         "V7_types.fn:ModuleTypes::new", "V6_api.fn:LocalFunction::new"],
         # the section arms of parse_internal / parse_comp that are under contract for C02 / C27: a verified function cannot panic
         "obligations_extra": V19_CODE + V18_TYPES + V10_PARSE_SECTIONS + ["V10_parse.parse_comp_*_section.*", "V10_parse.fn:Component::parse_comp_*_section", "V10_parse.fn:lemma_first_err"],
-        "glue": [V19_TRUST, V18_TRUST, "the payload loops of Module::parse_internal and Component::parse_comp (480 + 300 lines) are NOT under contract as a whole; regions of parse_internal are (rule R16): the type / tag / export / element / import / global / memory / function / data / table section arms and the code-entry arm (whatever the reader yields - any entries, a read error anywhere - the arm returns Ok or Err, it does not panic; the import arm assumes a section has at most 2^32-1 entries, which the binary format's u32 count guarantees), the function-names loop, the application of the names, the producers section, the construction of the functions / globals / memories at the end; and of parse_comp: the core-module and nested-component section arms (slicing the input with the unchecked range of the section header) and the eight plain section arms. The start / custom / name arms and `_ => todo!()` (unreachable for this wasmparser version: every Payload variant is listed) are not decided",
+        "glue": [V19_TRUST, V18_TRUST, "the payload loops of Module::parse_internal and Component::parse_comp (480 + 300 lines) are NOT under contract as a whole; regions of parse_internal are (rule R16): the type / tag / export / element / import / global / memory / function / data / table section arms and the code-entry arm (whatever the reader yields - any entries, a read error anywhere - the arm returns Ok or Err, it does not panic; the import arm assumes a section has at most 2^32-1 entries, which the binary format's u32 count guarantees), the function-names loop, the application of the names, the producers section, the construction of the functions / globals / memories at the end; and of parse_comp: the core-module and nested-component section arms (slicing the input with the unchecked range of the section header) and the eight plain section arms, the start arm and the custom-section arm (other than the component-name section). The start / custom / name arms of parse_internal and `_ => todo!()` (unreachable for this wasmparser version: every Payload variant is listed) are not decided",
                  "rule R18: loops over wasmparser section readers are written as `loop { match next() .. }`; the readers are TRUSTED to yield any item or error and to terminate",
                  "the precondition functions.len() == code_sections.len() of the local-functions region is established by the IncorrectCodeCounts check a few lines above it (read, not proved)",
                  "TRUSTED model of the operator reader: read() returns any operator or an error and consumes at least one byte when it succeeds"],
@@ -255,13 +255,14 @@ PROPS = {
     },
     "C28": {
         "title": "Custom sections are preserved and edited exactly",
-        "units": ["V6b_api2", "V12_sections", "V16_comp_emit"],
-        "obligations": ["V6b_api2.CustomSections.*", "V6b_api2.fn:CustomSections::*",
+        "units": ["V6b_api2", "V12_sections", "V16_comp_emit", "V10_parse"],
+        "obligations": ["V6b_api2.CustomSections.*", "V6b_api2.fn:CustomSections::*", "V6b_api2.fn:CustomSection::new_borrowed",
                         # components: the custom-section arm of Component::encode_comp
-                        "V16_comp_emit.emit_custom_sections.*", "V16_comp_emit.fn:Component::emit_custom_sections", "V16_comp_emit.fn:CustomSections::get_by_id", "V16_comp_emit.fn:CustomSections::len"],
+                        "V16_comp_emit.emit_custom_sections.*", "V16_comp_emit.fn:Component::emit_custom_sections", "V16_comp_emit.fn:CustomSections::get_by_id", "V16_comp_emit.fn:CustomSections::len",
+                        "V10_parse.parse_comp_custom_section.*", "V10_parse.fn:Component::parse_comp_custom_section"],
         "obligations_extra": V12_CUSTOM,
         "glue": V12_TRUST + ["parsing custom sections into the collection (name-section exclusion) and emitting them (order) happen in parse_internal / encode_internal: not under contract",
-                 "CustomSections::get_section_data_mut (Cow::to_mut) and CustomSections::new (iterator adaptor chain) are not under contract"],
+                 "CustomSections::get_section_data_mut (Cow::to_mut) is not under contract; CustomSections::new is (rule R22: one section per (name, bytes) pair read, in order)"],
         "design_ref": "DESIGN.md §5 C28",
         "level_text": "The collection behaves as a sequence: add appends and returns the new index, delete removes exactly the addressed entry and keeps the order of the others, get_by_id returns exactly the addressed entry; for all contents and ids.",
     },
